@@ -3,13 +3,16 @@ From Verif Require Import Prelude Gen Seq SeqProofs Translated.
 
 (* Every finite delivery history (any order, multiplicity, subset) of sequence numbers:
    the accepted ones are pairwise distinct — also from a stale bitmap left by a key rollover. *)
-(* Tie to the code (go/ast on the source, regenerated every run): there is ONE replay handler per
+(* Tie to the code (go/ast on the source, regenerated every run): there is ONE session object per
+   sender (State.GetSession looks up, creates and registers under the sessions lock for its whole
+   body), ONE replay handler per
    session and its checks are serialised — the lazily created signing / encryption session
    objects are created under the session lock (whole body of Signing / Encryption), and the Check
    methods of both handlers hold the handler lock for their whole body.  Under it every
    interleaving of concurrent receivers is a sequence of Check calls on one handler, which is what
    the theorems below quantify over. *)
 Theorem C03_single_serialised_handler :
+  Gen.state_getsession_locked = true /\
   Gen.session_signing_locked = true /\ Gen.session_encryption_locked = true /\
   Gen.seq_check_locked = true /\ Gen.timeseq_check_locked = true.
 Proof. repeat split; reflexivity. Qed.
